@@ -10,7 +10,9 @@ import (
 type FromSpec struct {
 	nameAddr *NameAddr
 	addrSpec *AddrSpec
-	params   []KeyValue
+	// what stands between the '>' of the name-addr and the first ';' (blanks): kept so that the value is re-encoded as received
+	gap    string
+	params []KeyValue
 }
 
 func ParseFromSpec(s string) (*FromSpec, error) {
@@ -36,6 +38,7 @@ func ParseFromSpec(s string) (*FromSpec, error) {
 		}
 		pos := strings.IndexByte(s[raquot_pos+1:], ';')
 		if pos != -1 {
+			r.gap = s[raquot_pos+1 : raquot_pos+1+pos]
 			params = s[raquot_pos+1+pos+1:]
 		}
 	} else {
@@ -80,7 +83,7 @@ func (fs *FromSpec) String() string {
 	buf := bytes.NewBuffer(make([]byte, 0))
 
 	if fs.nameAddr != nil {
-		fmt.Fprintf(buf, "%s", fs.nameAddr.String())
+		fmt.Fprintf(buf, "%s%s", fs.nameAddr.String(), fs.gap)
 	} else if fs.addrSpec != nil {
 		fmt.Fprintf(buf, "%s", fs.addrSpec.String())
 	}
